@@ -13,8 +13,8 @@ class LFUCache(BaseCacheImpl): pass
 class RRCache(BaseCacheImpl): pass
 class TTLCache(BaseCacheImpl):
     """entries expire `ttl` seconds after insertion (checked on lookup)"""
-    def __init__(self, maxsize=0, ttl=0, *a, **k):
-        super().__init__(maxsize); self.ttl = ttl; self._t = {}
+    def __init__(self, maxsize=0, ttl=0, *a, global_ttl=None, **k):
+        super().__init__(maxsize); self.ttl = global_ttl if global_ttl is not None else ttl; self._t = {}
     def __setitem__(self, key, value):
         import time
         self._t[key] = time.monotonic(); dict.__setitem__(self, key, value)
